@@ -175,9 +175,15 @@ func (w *wal) read() (WALBatch, error) {
 	reader := bufio.NewReader(w.reader)
 	tupleLenBuf := make([]byte, 4)
 
+	// goodLen is the size of the log up to the end of the last complete record
+	goodLen := int64(0)
+
 	for {
 		if n, err := io.ReadFull(reader, tupleLenBuf); err == io.EOF {
 			break
+		} else if err == io.ErrUnexpectedEOF {
+			// the process died while appending this record
+			return ret, w.truncate(goodLen)
 		} else if err != nil {
 			return ret, err
 		} else if n != len(tupleLenBuf) {
@@ -190,7 +196,10 @@ func (w *wal) read() (WALBatch, error) {
 		}
 
 		tupleBuf := make([]byte, tupleLen)
-		if n, err := io.ReadFull(reader, tupleBuf); err != nil {
+		if n, err := io.ReadFull(reader, tupleBuf); err == io.EOF || err == io.ErrUnexpectedEOF {
+			// the process died while appending this record
+			return ret, w.truncate(goodLen)
+		} else if err != nil {
 			return ret, err
 		} else if n != tupleLen {
 			panic("bytes read differs from expected buffer length")
@@ -201,9 +210,19 @@ func (w *wal) read() (WALBatch, error) {
 			return ret, err
 		}
 		ret = append(ret, w)
+		goodLen += int64(len(tupleLenBuf) + tupleLen)
 	}
 
 	return ret, nil
+}
+
+// truncate cuts off an incomplete record at the end of the log, so that it is
+// neither replayed nor buried under records appended later.
+func (w *wal) truncate(size int64) error {
+	if f, ok := w.reader.(interface{ Truncate(size int64) error }); ok {
+		return f.Truncate(size)
+	}
+	return nil
 }
 
 func (w *wal) flush(batch WALBatch) error {
